@@ -738,16 +738,16 @@ func generate(r *lib.Rng, adv bool) *Input {
 			t.L.Name = g.fresh(p, "t")
 			t.Test, t.Binary, t.TestOnly = true, true, true
 			subj := g.someDeps(1, 3, nil)
-			if r.Chance(1, 3) {
-				h := TSpec{L: Lbl{p.Sub, p.Pkg, "_" + t.L.Name + "#lib"}, TestOnly: true, Deps: subj}
-				g.decorate(&h)
-				g.addTarget(h)
-				t.Deps = []Lbl{h.L}
-				if r.Chance(1, 3) {
-					t.Deps = append(t.Deps, g.someDeps(1, 1, nonTest)...)
-				}
-			} else {
-				t.Deps = subj
+			// the way to the subjects: direct, or through a chain of 1-3 hidden sub-targets (of the test's own
+			// rule, or - adversarial - with one link that only looks like one)
+			depth := []int{0, 0, 0, 0, 0, 1, 1, 1, 2, 2, 3, 3}[r.Intn(12)]
+			variant := chainOwn
+			if depth > 0 && r.Chance(1, 4) {
+				variant = r.Range(1, nChainVariants-1)
+			}
+			t.Deps = g.chain(p, pk, t.L.Name, subj, depth, variant)
+			if depth > 0 && r.Chance(1, 3) {
+				t.Deps = append(t.Deps, g.someDeps(1, 1, nonTest)...)
 			}
 			if adv {
 				if r.Chance(1, 4) {
